@@ -334,7 +334,6 @@ Fixpoint item_cons (st : fstate) (it : plan_item) : list citem :=
   | Guarded g it' => if guard_true st g then item_cons st it' else []
   | AutoStationary => []
   | LMI _ _ => []
-  | CrossEq f => flat_map (fun si => map (fun sj => mkC None (inst st f si sj)) (f_tpoints st)) (f_points st)
   | BlockPairs cprefix f => gen_block_flat st cprefix f (f_points st)
   end.
 
@@ -380,12 +379,11 @@ Lemma run_item_eq it o :
                       (g_tables o ++ item_tables (g_state o) (List.length (g_cons o)) it)
                       (item_state (g_state o) it).
 Proof.
-  induction it as [l1 l2 cname f sym|l cname f|g it IH| |l entry|f|cprefix f]; cbn [run_item item_cons item_lmis item_tables item_state].
+  induction it as [l1 l2 cname f sym|l cname f|g it IH| |l entry|cprefix f]; cbn [run_item item_cons item_lmis item_tables item_state].
   - unfold append_out. rewrite app_nil_r. reflexivity.
   - unfold append_out. rewrite app_nil_r. reflexivity.
   - destruct (guard_true (g_state o) g); [exact IH|apply genout_eta].
   - rewrite !app_nil_r. destruct (f_stat (g_state o)); [reflexivity|destruct o; reflexivity].
-  - unfold append_out. rewrite !app_nil_r. reflexivity.
   - unfold append_out. rewrite !app_nil_r. reflexivity.
   - unfold append_out. rewrite app_nil_r. reflexivity.
 Qed.
@@ -403,7 +401,6 @@ Fixpoint item_src (st : fstate) (it : plan_item) (c : citem) : Prop :=
   | Guarded g it' => guard_true st g = true /\ item_src st it' c
   | AutoStationary => False
   | LMI _ _ => False
-  | CrossEq f => exists si sj, In si (f_points st) /\ In sj (f_tpoints st) /\ c = mkC None (inst st f si sj)
   | BlockPairs cprefix f =>
       exists i j k si sj, nth_error (f_points st) i = Some si /\ nth_error (f_points st) j = Some sj /\
                           same_tuple si sj = false /\ k < f_nblocks st /\
@@ -448,21 +445,18 @@ Qed.
 
 Theorem item_cons_spec st it c : In c (item_cons st it) <-> item_src st it c.
 Proof.
-  induction it as [l1 l2 cname f sym|l cname f|g it IH| |l entry|f|cprefix f]; cbn [item_cons item_src].
+  induction it as [l1 l2 cname f sym|l cname f|g it IH| |l entry|cprefix f]; cbn [item_cons item_src].
   - apply gen_pairs_spec.
   - apply gen_singles_spec.
   - destruct (guard_true st g); [rewrite IH; tauto|]. split; [intros []|intros [H _]; discriminate].
   - tauto.
   - tauto.
-  - rewrite in_flat_map. split.
-    + intros [si [Hsi Hin]]. apply in_map_iff in Hin as [sj [<- Hsj]]. exists si, sj. auto.
-    + intros (si & sj & Hsi & Hsj & ->). exists si. split; [exact Hsi|]. apply in_map_iff. exists sj. auto.
   - apply gen_block_spec.
 Qed.
 
 Theorem item_lmis_spec st it m : In m (item_lmis st it) <-> item_lmi_src st it m.
 Proof.
-  induction it as [l1 l2 cname f sym|l cname f|g it IH| |l entry|f|cprefix f]; cbn [item_lmis item_lmi_src In]; try tauto.
+  induction it as [l1 l2 cname f sym|l cname f|g it IH| |l entry|cprefix f]; cbn [item_lmis item_lmi_src In]; try tauto.
   - destruct (guard_true st g); [rewrite IH; tauto|]. split; [intros []|intros [H _]; discriminate].
   - split; [intros [H|[]]; auto|intros ->; left; reflexivity].
 Qed.
